@@ -880,6 +880,9 @@ def evaluate(sc, res, lines, pending):
         res.count("txt-needs-own-datagram")
     if obs["errors"]:
         res.count("loop-errors")
+        # an exception that escapes a background task / timer callback into the loop's handler (a goodbye or announcement task that dies
+        # half-way looks like a short sequence otherwise): never on the unchanged tree
+        res.violate("C09:exception-in-event-loop", "an exception reached the event loop's handler: %s" % obs["errors"][0][:300], case)
     calls = blocks_of(obs)
     for ci, call in enumerate(calls):
         res.count("outcome:" + str(call["outcome"]))
